@@ -391,6 +391,10 @@ def option_cases(ctx, script, judge, cov, dist):
                 ctx.offender("options:refused-after-writing", "argv %r: exit 1 but files were written: %r" %
                              (argv, sorted(r["files"])[:5]), {"case": case})
             continue
+        if "c" in flags and got.startswith("perfile"):
+            # -c was asked for and is silently dropped: nothing is merged, files are written instead
+            ctx.offender("options:-c-ignored", "argv %r: -c given, but the per-file output ran (%s)" % (argv, sorted(r["files"])[:4]),
+                         {"case": case})
         if wants_files:
             want_files = {t: "".join(l + "\n" for l in ls) for t, ls in lines_of.items()}
             if infiles != want_files:
